@@ -13,6 +13,9 @@ CHECKS = {
  "C14": dict(level="exploration", technique="invariant monitor over before/after directory listings and tables of the real GC threads",
    text="Thousands of generated collections of real history files (live/stale locks, corrupt, truncated, empty members, custom history file) and SQLite tables are collected by the real JsonHistoryGC / SqliteHistoryGC threads with limits at every boundary the collection defines; the surviving set is judged with set-level rules (locked never deleted, deleted set is an oldest-first prefix, kept set fits and is maximal, nothing deleted when within the limit, refusal rule).",
    note="Oracle = rules of DESIGN Appendix A.3; the refuse-unless-forced rule is judged only outside the ambiguous band; ages within 5 s of a seconds limit are not generated.", ref="§2 C14, A.3"),
+ "C16": dict(level="exploration", technique="reference-model + invariant monitor over live cwd/$PWD/$OLDPWD/DIRSTACK after every step of generated histories",
+   text="Histories of cd/pushd/popd/dirs (every argument form), path-literal cd() blocks and behind-the-back chdir + _fix_cwd run against the real builtins in a tree with symlinks, deleted and really inaccessible directories (DAC capabilities dropped); after each of ~250k steps the live state is checked against invariants (PWD names cwd, failure changes nothing, stack bound, OLDPWD) and the documented model.",
+   note="Model = DESIGN Appendix A.4; steps whose logical and physical path readings differ are judged on invariants only; the current directory is never removed.", ref="§2 C16, A.4"),
 }
 NOT_BUILT = "check not built yet in this session (planned, see DESIGN.md §2); nothing is claimed for it"
 def main():
